@@ -290,3 +290,20 @@ def same_value(a, b):
     if a == b: return True
     fa, fb = lin_form(a), lin_form(b)
     return fa is not None and fa == fb
+
+
+def passed_equation(p, lhs, rhs, truth, before=None):
+    """the path took the `truth` side of a test that says lhs == rhs in any spelling: a == b / b == a / a != b with the
+    other outcome, with the two sides rearranged ((ch - e) + 1 == length  for  ch + 1 == e + length)"""
+    want = lin_form(f'({lhs}) - ({rhs})')
+    if want is None: return False
+    neg = {k: -c for k, c in want.items()}
+    ev = p.events if before is None else p.events[:before]
+    for e in ev:
+        if e[0] != 'cond': continue
+        m = re.fullmatch(r'\((.+) (==|!=) (.+)\)', e[1])
+        if not m: continue
+        got = lin_form(f'({m.group(1)}) - ({m.group(3)})')
+        if got is None or got not in (want, neg): continue
+        if (m.group(2) == '==') == (e[2] == truth): return True
+    return False
